@@ -201,7 +201,8 @@ def r12_3(ctx: Ctx) -> None:
     # reset(): seek, new worker, clear all
     rs = shared.szf(ctx, "reset")
     clears = _clears_all_decoders(ctx, rs)
-    seeks = [c for c in q.calls(rs) if attr_tail(c) == "seek" and any(isinstance(n, ast.Attribute) and n.attr == "afterheader" for a in c.args for n in ast.walk(a))]
+    seeks = [c for c in q.calls(rs) if attr_tail(c) == "seek" and any(isinstance(n, ast.Attribute) and n.attr in ("afterheader", "_packed_start")
+                                                                    for a in c.args for n in ast.walk(a))]
     workers = [n for n in walk(rs.node) if isinstance(n, ast.Assign) and any(isinstance(t, ast.Attribute) and t.attr == "worker" for t in n.targets)
                and isinstance(n.value, ast.Call) and attr_tail(n.value) == "Worker"]
     ctx.check(bool(clears) and bool(seeks) and bool(workers), "R12.3", rs, rs.node, "reset(): re-seek, new worker, all decoder caches cleared",
